@@ -3,7 +3,8 @@ from vlib.framework import PUnit, LUnit, BUnit
 from bounded import b_build as B
 from contracts import virtual_sites as VS
 
-P_UNITS = [PUnit("virtual-site-constructions", VS.CONTRACTS, VS.REG), LUnit("virtual-site-dispatch-table", VS.lemma_dispatch_table)]
+from contracts import templates as TP
+P_UNITS = [PUnit("virtual-site-constructions", VS.CONTRACTS, VS.REG), PUnit("template-relative-to-centre", TP.CONTRACTS, TP.REG), LUnit("virtual-site-dispatch-table", VS.lemma_dispatch_table)]
 
 
 def build(tier, seed):
